@@ -148,6 +148,11 @@ def wset (cfg : Cfg) (s : St) (k : Nat) (v : Val) (ttl : Option Nat) (c : Cond) 
     let r := s.touch cfg k
     if r.2.isSome then (r.1.writeTagged k v ttl tags, .bool true) else (r.1, .bool false)
 
+/-- `int(await self._get(key, 0))`: `none` = the stored value is not a number (the call raises) -/
+def counterOf : Option Val → Option Int
+  | none => some 0
+  | some v => v.toInt?
+
 /-- `CommandsTagsWrapper.incr(key, value, expire, tags)`.  `Memory.incr`: `value += int(_get(key, 0))`,
 the TTL is applied iff the result is 1.  With `repaired = true` (commit 8a2895c):
 `if tags: tag_expire = expire if _set == 1 else None; set_add(..., expire=tag_expire)`;
@@ -155,10 +160,7 @@ with `repaired = false` the former rule `if _set and tags: set_add(..., expire=e
 (kept only to show, in `Props/C12.lean`, that it breaks the property). -/
 def wincrWith (repaired : Bool) (cfg : Cfg) (s : St) (k : Nat) (by_ : Int) (ttl : Option Nat) (tags : List Nat) : St × Out :=
   let r := s.touch cfg k
-  let cur : Option Int := match r.2 with
-    | none => some 0
-    | some v => v.toInt?
-  match cur with
+  match counterOf r.2 with
   | none => (r.1, .err)
   | some c =>
     let n := c + by_
@@ -172,12 +174,13 @@ def wincr := wincrWith true
 
 /-- a call of a function decorated with `@cache(ttl, key=..., tags=...)` whose body returns `v`:
 `cached = await backend.get(key, default=_empty)`; hit -> return it; miss -> run the body,
-`await backend.set(key, result, expire=ttl, tags=tags)` -/
+`await backend.set(key, result, expire=ttl, tags=tags)`.  The two outcomes are told apart in the output:
+`.val (some c)` = served from the cache, `.vals [some v]` = the body ran and its result was stored. -/
 def wcall (cfg : Cfg) (s : St) (k : Nat) (v : Val) (ttl : Option Nat) (tags : List Nat) : St × Out :=
   let r := s.touch cfg k
   match r.2 with
   | some c => (r.1, .val (some c))
-  | none => (r.1.writeTagged k v ttl tags, .val (some v))
+  | none => (r.1.writeTagged k v ttl tags, .vals [some v])
 
 /-- explicit deletion of one key (`delete`, and each key of `delete_many`) -/
 def delKey (cfg : Cfg) (s : St) (k : Nat) : St := ((s.rawDelete cfg k).1).noteDelete k
@@ -268,6 +271,22 @@ def TOp.writes (k : Nat) : TOp → Bool
   | .incr k' _ _ _ => k' = k
   | .call k' _ _ _ => k' = k
   | _ => false
+
+/-- did the command, given its result, write its key?  (`set` answered True, `incr` a number, the
+decorated body ran) -/
+def TOp.wrote : TOp → Out → Bool
+  | .set .., .bool true => true
+  | .incr .., .int _ => true
+  | .call .., .vals _ => true
+  | _, _ => false
+
+/-- **"the latest write of `k` carried ..."**, read off a chronological trace of commands and results:
+the tag list of the last command that wrote `k` ([] if there is none). -/
+def latestTags (k : Nat) (trace : List (TOp × Out)) : List Nat :=
+  trace.foldl (fun acc p => if p.1.writes k && p.1.wrote p.2 then p.1.tagsFor k else acc) []
+
+/-- the trace (commands with their results) of a history run from `s` -/
+def trace (cfg : Cfg) (s : St) (ops : List TOp) : List (TOp × Out) := ops.zip (run cfg s ops).2
 
 /-- documented usage: a tag is registered for the keys it is used with
 (`cache.register_tag(tag, key_template)` before `set(..., tags=[tag])`; the decorator does it itself) -/
